@@ -190,6 +190,7 @@ func c15(ctx *run.Ctx) {
 	for b := 0; b < ctx.Pick(4, 40); b++ {
 		ctx.Case(fmt.Sprintf("float32/%d", b), c15Float32)
 		ctx.Case(fmt.Sprintf("float32huge/%d", b), c15Float32Huge)
+		ctx.Case(fmt.Sprintf("intbands/%d", b), c15IntBands)
 	}
 	nrand := ctx.Pick(6, 60)
 	lengths := []int{60, 160}
@@ -215,6 +216,24 @@ func c15(ctx *run.Ctx) {
 				}
 				if !okv {
 					continue
+				}
+			}
+			if ci == 0 {
+				// very short periods on a long one-way market: recursive averages decay
+				// geometrically (a loss average of 0.5^1000 underflows), ratios saturate
+				short := ind.Default
+				short.I = append([]int(nil), short.I...)
+				for k := range short.I {
+					short.I[k] = 2
+				}
+				for _, class := range []string{gen.Up, gen.Down} {
+					class := class
+					ctx.Case(fmt.Sprintf("%s/periods2/%s/long1300", ind.Name, class), func(cc *run.Case) {
+						cc.Desc(map[string]any{"indicator": ind.Name, "cfg": short, "class": class, "n": 1300})
+						// a little two-way trading first: the averages that then decay are not exactly zero
+						bars := append(gen.Bars(cc.R, gen.Walk, 25), gen.Bars(cc.R, class, 1300)...)
+						c15Check(cc, ind, iv, short, class, indInputs(ind, bars, nil))
+					})
 				}
 			}
 			if ci <= 1 {
